@@ -43,7 +43,21 @@ def r1_no_out_of_bounds_block(ctx):
     if bump and all(any(op == "Gt" and sh(x) == "end" and "commit" in sh(y) for op, x, y, S in cmp_facts(ar, c.block)) for c in bump):
         a = [sh(ne(ar.deep(x))) for x in bump[0].args[1:]]
         from ..linear import lin
-        if a[0].startswith("BitAnd(") and lin(ne(ar.deep(bump[0].args[2]))) == ({a[0]: 1, "bytes": 1}, 0):
+        # beg is what the fast path adds to the base for the block it hands out (R8 states what that has to be)
+        fast_beg = None
+        for c in ar.calls():
+            if (c.callee or "").endswith("slice_from_raw_parts"):
+                pe = ne(ar.deep(c.args[0], 30))
+                if pe[0] == "call" and pe[1].split("::")[-1] == "add" and len(pe[2]) == 2:
+                    fast_beg = lin(pe[2][1])
+        lb = lin(ne(ar.deep(bump[0].args[1], 30)))
+        le = lin(ne(ar.deep(bump[0].args[2], 30)))
+        want_end = None
+        if lb is not None:
+            we = dict(lb[0])
+            we["bytes"] = we.get("bytes", 0) + 1
+            want_end = (we, lb[1])
+        if "BitAnd(" in a[0] and lb is not None and lb == fast_beg and le == want_end:
             ctx.ok("alloc_raw|slow-path", ar.where(bump[0].block), "end > commit -> alloc_raw_bump(beg, end)")
         else:
             ctx.bad("alloc_raw|slow-path-args", ar.where(bump[0].block), "alloc_raw_bump is called with (%s, %s), not (beg, end)" % (a[0][:40], a[1][:40]))
@@ -157,9 +171,51 @@ def r3_grow(ctx):
         ctx.bad("grow|tail-test", g.where(), "grow no longer tests `ptr + old_size == base + offset` before growing in place: a block that is not the most recent one would be extended over its neighbour")
         return
     ctx.ok("grow|tail-test", g.where(S), "in-place growth only when the block ends at the arena's offset")
+    # ... where the block's end is its start plus its *size* (what the caller may use); with the size rounded up to the
+    # alignment, a block followed by small neighbours that fill its padding counts as last and grows over them
+    si = g.switch_info(S)
+    ends = []
+    for x in si["call"]["args"]:
+        e = ne(g.deep(x))
+
+        def walk(t):
+            if isinstance(t, tuple):
+                if t[0] == "call" and t[1].split("::")[-1] == "add" and len(t[2]) == 2 and sh(t[2][0]).replace(" ", "") == "ptr":
+                    ends.append(sh(t[2][1]).replace(" ", ""))
+                for y in t:
+                    if isinstance(y, (tuple, list)):
+                        walk(y)
+            elif isinstance(t, list):
+                for y in t:
+                    walk(y)
+        walk(e)
+    if ends and all(x == "size(old_layout)" for x in ends):
+        ctx.ok("grow|tail-test|block-end", g.where(S), "block end = ptr + old_layout.size()")
+    else:
+        ctx.bad("grow|tail-test|block-end", g.where(S), "the tail test takes the block to end at ptr + `%s`, not at ptr + old_layout.size(): a neighbour placed in the block's alignment padding is overwritten by the in-place growth" % (ends[0][:60] if ends else "?"))
     inplace = [c for c in g.calls_to(B + "alloc_raw") if g.edge_dominated(c.block, S, [l for l, _ in g.succ[S] if l != 0])]
-    copy = [c for c in g.calls() if (c.callee or "").endswith("copy_nonoverlapping") and g.edge_dominated(c.block, S, [0])]
-    alloc = [c for c in g.calls() if c.callee in (ALLOC_IMPL + "allocate", B + "alloc_raw") and g.edge_dominated(c.block, S, [0])]
+    # the block handed back in place keeps its address: it must already satisfy the alignment of the *new* layout (the
+    # Allocator contract lets a caller grow to a stricter alignment); either the address is tested against new_layout.align()
+    # or the alignments are compared, on every path into the in-place branch
+    if inplace:
+        tested = False
+        for S2, al in g.constraints(inplace[0].block):
+            d = sh(ne(g.deep(g.blocks[S2]["t"]["d"]))).replace(" ", "")
+            if "align(new_layout)" in d and ("addr(" in d or "align(old_layout)" in d or "align_offset(" in d or "is_aligned_to(" in d):
+                tested = True
+        for op, x, y, S2 in cmp_facts(g, inplace[0].block):
+            t = (sh(x) + " " + sh(y)).replace(" ", "")
+            if "align(new_layout)" in t and ("align(old_layout)" in t or "addr(" in t):
+                tested = True
+        if tested:
+            ctx.ok("grow|in-place|alignment", g.where(inplace[0].block), "in place only when the block's address fits new_layout.align()")
+        else:
+            ctx.bad("grow|in-place|alignment", g.where(inplace[0].block), "grow extends the last block in place without looking at new_layout.align(): growing to a stricter alignment returns the old, misaligned address (a debug_assert catches it in debug builds only)")
+    tail_labels = [l for l, _ in g.succ[S] if l != 0]
+    # the relocating path: everything that is not on the in-place side of the tail test (it may be entered from an earlier
+    # test as well - `aligned && tail` - so it is not necessarily edge-dominated by the test's false outcome)
+    copy = [c for c in g.calls() if (c.callee or "").endswith("copy_nonoverlapping") and not g.edge_dominated(c.block, S, tail_labels)]
+    alloc = [c for c in g.calls() if c.callee in (ALLOC_IMPL + "allocate", B + "alloc_raw") and not g.edge_dominated(c.block, S, tail_labels)]
     if inplace and "Sub(size(new_layout),size(old_layout))" in sh(ne(g.deep(inplace[0].args[1]))).replace(" ", "") and inplace[0].args[2].get("int") == 1:
         ctx.ok("grow|in-place", g.where(inplace[0].block), "alloc_raw(new - old, 1) on the tail path")
     else:
@@ -328,6 +384,17 @@ def r7_typed_front_ends(ctx):
         size = sh(ne(f.deep(ar[0].args[1]))).replace(" ", "")
         align = sh(ne(f.deep(ar[0].args[2]))).replace(" ", "")
         mirror = "Mul(count,size_of())"
+        # the product as a checked multiplication whose failure panics (expect / unwrap) is the same request
+        m = re.match(r"^(?:expect|unwrap)\(checked_mul\((size_of\(\),count|count,size_of\(\))\)(?:,\"[^\"]*\")?\)$", size)
+        checked = bool(m)
+        if m:
+            size = "Mul(%s)" % m.group(1)
+        if short == "alloc_uninit_slice":
+            wraps = any(st["rv"]["k"] == "bin" and st["rv"]["op"] in ("Mul", "MulUnchecked") for b in f.live for st in f.blocks[b]["s"]) or any((c.callee or "").split("::")[-1] in ("wrapping_mul", "unchecked_mul") for c in f.calls())
+            if checked and not wraps:
+                ctx.ok("typed|%s|product-checked" % short, f.where(ar[0].block), "size_of::<T>().checked_mul(count), a failed product panics")
+            else:
+                ctx.bad("typed|%s|product-can-wrap" % short, f.where(ar[0].block), "alloc_uninit_slice computes size_of::<T>() * count with an operator that wraps in a build without overflow checks (the release profile): a count above usize::MAX / size_of::<T>() is served from a few bytes and the caller gets a slice of `count` elements over memory it does not own, instead of a clean failure")
         if size in (want_size, mirror) and align == "align_of()":
             ctx.ok("typed|%s|request" % short, f.where(ar[0].block), "alloc_raw(%s, %s)" % (size, align))
         else:
@@ -349,14 +416,14 @@ def r8_watermark_arithmetic(ctx):
     from ..flow import reaching_expr
 
     def L(fn, operand, block):
-        return lin(ne(reaching_expr(fn, fn.deep(operand), block)))
+        return lin(ne(reaching_expr(fn, fn.deep(operand, 30), block)))
 
     def want(fn, c, operand, expected, key, what, consequence):
         got = L(fn, operand, c.block)
         if got == expected:
-            ctx.ok(key, fn.where(c.block), "%s = %s" % (what, show(ne(reaching_expr(fn, fn.deep(operand), c.block)))))
+            ctx.ok(key, fn.where(c.block), "%s = %s" % (what, show(ne(reaching_expr(fn, fn.deep(operand, 30), c.block)))))
         else:
-            ctx.bad(key, fn.where(c.block), "%s is `%s`, not `%s`: %s" % (what, show(ne(reaching_expr(fn, fn.deep(operand), c.block))), " + ".join("%s%s" % ("" if v == 1 else "-" if v == -1 else str(v) + "*", k) for k, v in sorted(expected[0].items())).replace("+ -", "- ") or str(expected[1]), consequence))
+            ctx.bad(key, fn.where(c.block), "%s is `%s`, not `%s`: %s" % (what, show(ne(reaching_expr(fn, fn.deep(operand, 30), c.block))), " + ".join("%s%s" % ("" if v == 1 else "-" if v == -1 else str(v) + "*", k) for k, v in sorted(expected[0].items())).replace("+ -", "- ") or str(expected[1]), consequence))
     n = 0
     ar = ctx.need(B + "alloc_raw")
     ctx.touch(ar)
@@ -364,7 +431,7 @@ def r8_watermark_arithmetic(ctx):
     beg = None
     for c in ar.calls():
         if (c.callee or "").endswith("slice_from_raw_parts"):
-            pe = ne(ar.deep(c.args[0]))
+            pe = ne(ar.deep(c.args[0], 30))
             if pe[0] == "call" and pe[1].split("::")[-1] == "add" and len(pe[2]) == 2:
                 beg = pe[2][1]
             n += 1
@@ -372,7 +439,10 @@ def r8_watermark_arithmetic(ctx):
     for c in ar.calls():
         if (c.callee or "").split("::")[-1] in ("set", "replace") and sh(ne(ar.deep(c.args[0]))) == "self.offset" and beg is not None:
             n += 1
-            want(ar, c, c.args[1], ({sh(beg): 1, "bytes": 1}, 0), "arith|alloc_raw|watermark", "the watermark after alloc_raw", "the next block overlaps this one or memory is skipped")
+            lb = lin(beg) or ({sh(beg): 1}, 0)
+            exp = dict(lb[0])
+            exp["bytes"] = exp.get("bytes", 0) + 1
+            want(ar, c, c.args[1], (exp, lb[1]), "arith|alloc_raw|watermark", "the watermark after alloc_raw", "the next block overlaps this one or memory is skipped")
     ab = ctx.need(B + "alloc_raw_bump")
     ctx.touch(ab)
     for c in ab.calls():
@@ -464,7 +534,121 @@ def r9_os_failure_values(ctx):
     ctx.floor("tested statuses of memory-management system calls", n, 1)
 
 
-RULES = [("C11-R1", r1_no_out_of_bounds_block), ("C11-R2", r2_who_writes_cursor), ("C11-R3", r3_grow), ("C11-R4", r4_debug_wrapper),
+def r10_raw_writes_end_inside_the_committed_region(ctx):
+    """Every raw write the bump allocator itself makes through base + start (the debug poison fills of reset, alloc_raw and
+    alloc_raw_bump) ends at a value that is capped by the commit mark: start + len, in linear normal form, is one `min(..)`
+    with the commit mark as an operand.  A fill that can run past the mark touches pages that are not committed (SIGSEGV) or,
+    when the arena is fully committed, memory behind the reservation."""
+    from ..linear import lin
+    n = 0
+    for fn in ctx.lib.fns.values():
+        if fn.file != "src/arena/bump.rs":
+            continue
+        for c in fn.calls():
+            short = (c.callee or "").split("::")[-1]
+            if short not in ("from_raw_parts_mut", "write_bytes"):
+                continue
+            ptr = ne(fn.deep(c.args[0]))
+            ptxt = sh(ptr).replace(" ", "")
+            m = re.search(r"add\(self\.base,", ptxt)
+            if not m:
+                continue        # a block obtained from alloc_raw / grow: sized by that call (R7, R3)
+            # start operand of base.add(start)
+            start = None
+
+            def find(e):
+                nonlocal start
+                if isinstance(e, tuple):
+                    if e[0] == "call" and e[1].split("::")[-1] == "add" and len(e[2]) == 2 and sh(e[2][0]).replace(" ", "") == "self.base":
+                        start = e[2][1]
+                        return
+                    for x in e:
+                        if isinstance(x, (tuple, list)):
+                            find(x)
+                elif isinstance(e, list):
+                    for x in e:
+                        find(x)
+            find(ptr)
+            if start is None:
+                continue
+            n += 1
+            ctx.touch(fn)
+            ln = ne(fn.deep(c.args[-1]))
+            end = lin(("bin", "Add", start, ln))
+            key = "raw-write|%s|%s" % (parent_fn(fn.id).split("::")[-1], short)
+            capped = False
+            if end is not None and end[1] == 0 and len(end[0]) == 1 and list(end[0].values()) == [1]:
+                atom = list(end[0])[0].replace(" ", "")
+                capped = atom.startswith("min(") and "get(self.commit)" in atom
+            if not capped:
+                # ... or a dominating comparison caps it
+                capped = end is not None and any(op == "Le" and lin(x) == end and "commit" in sh(y) for op, x, y, S in cmp_facts(fn, c.block))
+            if capped:
+                ctx.ok(key, fn.where(c.block), "ends at %s" % (list(end[0])[0][:70] if end and end[0] else "?"))
+            else:
+                from ..linear import show as lshow
+                ctx.bad(key, fn.where(c.block), "the raw write starting at base + %s ends at `%s`, which is not capped by the commit mark: when the watermark sits just below a commit boundary the write runs into uncommitted pages (or past the reservation)" % (sh(start)[:40], lshow(("bin", "Add", start, ln))[:120]))
+    ctx.floor("raw writes through base + start", n, 3)
+
+
+def r11_growth_is_reserved_before_the_raw_copy(ctx):
+    """The vector/string front ends that write through raw pointers (vec_replace_impl: ptr::copy / copy_nonoverlapping /
+    set_len) obtain the room first: a reserve of X - Y is taken exactly when X > Y (the comparison has the operands of the
+    subtraction), and it comes before the pointer is taken.  With a narrower condition the copies run past the block the
+    arena handed out, into its neighbour."""
+    n = 0
+    for fn in ctx.lib.fns.values():
+        if fn.file != "src/arena/string.rs":
+            continue
+        raw = [c for c in fn.calls() if (c.callee or "").split("::")[-1] in ("copy", "copy_nonoverlapping", "set_len") and ("ptr::" in (c.callee or "") or "intrinsics" in (c.callee or "") or (c.callee or "").endswith("set_len"))]
+        if not raw:
+            continue
+        for c in fn.calls():
+            if (c.callee or "").split("::")[-1] not in ("reserve", "reserve_exact") or len(c.args) < 2:
+                continue
+            amt = ne(fn.expr(c.args[1], 3))
+            if not (amt[0] == "bin" and amt[1].startswith("Sub")):
+                continue
+            n += 1
+            ctx.touch(fn)
+            X, Y = sh(amt[2]), sh(amt[3])
+            facts = [(op, sh(x), sh(y)) for op, x, y, S in cmp_facts(fn, c.block)]
+            key = "reserve|%s|guard" % parent_fn(fn.id).split("::")[-1]
+            exact = ("Gt", X, Y) in facts or ("Lt", Y, X) in facts
+            if exact and all(fn.dominates(c.block, r.block) or not (c.block in fn.reach([r.block])) for r in raw):
+                ctx.ok(key, fn.where(c.block), "reserve(%s - %s) exactly when %s > %s, before the raw copies" % (X, Y, X, Y))
+            elif not facts:
+                ctx.ok(key, fn.where(c.block), "unconditional reserve")
+            else:
+                ctx.bad(key, fn.where(c.block), "reserve(%s - %s) is taken under %s, not under %s > %s: when the replacement is longer than the part it replaces but the condition is false, the raw copies write past the end of the block" % (X, Y, facts, X, Y))
+    ctx.floor("guarded reserves before raw copies", n, 1)
+
+
+def r12_alignment_is_a_property_of_the_address(ctx):
+    """`Is aligned as requested`, for any alignment: alloc_raw rounds the *offset* up to the alignment, so the block's address
+    base + beg is aligned only as far as `base` itself is.  The reservation comes from the OS page-aligned; for alignments up
+    to the page size the two agree.  The rule asks for one of: the rounding is applied to the address (the base's address
+    enters the round-up), or the request's alignment is tested against what the base guarantees."""
+    ar = ctx.need(B + "alloc_raw")
+    ctx.touch(ar)
+    rounded = None
+    for b in sorted(ar.live):
+        for st in ar.blocks[b]["s"]:
+            if st["rv"]["k"] == "bin" and st["rv"]["op"] == "BitAnd":
+                rounded = (b, sh(ne(ar.deep_rvalue(st["rv"]))).replace(" ", ""))
+    if rounded is None:
+        ctx.ok("alignment|address|other-idiom", ar.where(), "no mask rounding in alloc_raw (R6 decides the idiom)")
+        return
+    b, t = rounded
+    on_address = "self.base" in t or "addr(" in t
+    guarded = any("alignment" in (sh(x) + sh(y)) and re.search(r"PAGE|page|4096|ALLOC_CHUNK", sh(x) + sh(y)) for fn in (ar,) for blk in fn.live for op, x, y, S in cmp_facts(fn, blk))
+    if on_address or guarded:
+        ctx.ok("alignment|address", ar.where(b), "rounded on the address" if on_address else "alignment tested against the base's")
+    else:
+        ctx.bad("alignment|offset-not-address", ar.where(b), "alloc_raw aligns the offset (`%s`), not the address: for an alignment above the page size the block is misaligned whenever the reservation's base is not a multiple of it (a 64 KiB-aligned request in a 256 KiB arena is off by 32 KiB)" % t[:70])
+
+
+RULES = [("C11-R1", r1_no_out_of_bounds_block), ("C11-R2", r2_who_writes_cursor), ("C11-R3", r3_grow), ("C11-R4", r4_debug_wrapper), ("C11-R10", r10_raw_writes_end_inside_the_committed_region), ("C11-R11", r11_growth_is_reserved_before_the_raw_copy), ("C11-R12", r12_alignment_is_a_property_of_the_address),
          ("C11-R5", r5_scoped_reset), ("C11-R6", r6_roundings), ("C11-R7", r7_typed_front_ends), ("C11-R8", r8_watermark_arithmetic),
          ("C11-R9", r9_os_failure_values)]
 
@@ -489,3 +673,6 @@ EXPLANATION += (
 ASSUMPTIONS = ["the recognised round-up idioms compute what they are known to compute", "unix virtual-memory back end"]
 TRUSTED = ["rustc nightly MIR and const-eval", "nsx exporter", "nsverif relational-guard extraction"]
 NONTRIVIAL = "one obligation per guarded return, cursor writer, forwarding method and rounding site"
+EXPLANATION += (
+    ' Round-5: R3 also states where the block ends (ptr + old_layout.size(), not the size padded to the alignment) and that the in-place path is taken only when the address fits new_layout.align(); R7 requires the slice size to be a checked product; R1/R8 compare beg and the watermark as linear forms of fully expanded expressions, so beg may be an address rounding minus the base; R10 every raw write through base + start ends at a min(.., commit mark); R11 a conditional reserve(X - Y) before raw copies is conditional on exactly X > Y; R12 the alignment rounding is applied to the address (or the alignment is tested against what the base guarantees).'
+)
